@@ -101,7 +101,7 @@ def link_flags(variant):
     return fl
 
 
-def build_daemon(out, variant="asan"):
+def build_daemon(out, variant="asan", site=False):
     """Build iauthd-c and the three decision modules; returns dict of paths."""
     v = _variant(variant)
     objs = compile_objs(out, variant, [os.path.join(REPO, "src", s) for s in CORE_SRCS])
@@ -117,6 +117,10 @@ def build_daemon(out, variant="asan"):
         mo = compile_objs(out, variant, [os.path.join(REPO, "modules", s) for s in srcs], pic=True)
         _run([v["cc"]] + link_flags(variant) + ["-shared", "-o",
              os.path.join(moddir, name + ".so")] + mo)
+    if site:
+        # the fixture decision module (harness/siteapi.c) that drives the parts of the module interface no shipped module uses
+        mo = compile_objs(out, variant, [os.path.join(VERIF, "harness", "siteapi.c")], pic=True)
+        _run([v["cc"]] + link_flags(variant) + ["-shared", "-o", os.path.join(moddir, "site_api.so")] + mo)
     return {"exe": exe, "moddir": moddir, "out": out}
 
 
